@@ -407,7 +407,17 @@ def run_case2(case, rec):
                 if t == 'phases':
                     arg = as_form(target, st['order'], st['form'])
                     rec.hit('v2:phases-form/' + st['form'])
-                    s.phases = arg
+                    if len(target) == 0:
+                        # an empty target set (only possible for an empty stream): refused by the library ('at least one phase must be given')
+                        try:
+                            s.phases = arg
+                        except ValueError:
+                            rec.refuse('phases = <empty set> refused (ValueError)')
+                            a2 = snap(s)
+                            rec.check(a2 == before, 'phases=', 'empty-set/refusal-leaves-stream', f'step {k}: refused phases=() changed the stream: {a2} was {before}')
+                            continue
+                    else:
+                        s.phases = arg
                     tag = 'phases='; sfx = f'{st["form"]}-form/'
                 else:
                     arg = ''.join(p for p in st['order'] if p in target)
@@ -481,6 +491,16 @@ def run_case2(case, rec):
                     continue
                 after = snap(s)
                 labels = set(after['phases'])
+                if outside and ne:
+                    # the solver's phase pair does not contain the stream's (non-empty) phase: the target phase set lacks a non-empty phase, which the
+                    # quantifier of C12 excludes (the library relabels the material as liquid there); totals, T and P are still judged
+                    rec.refuse(f'.{which} on a non-empty single-phase stream whose phase lies outside the solver pair (outside the quantifier: content placement not judged)')
+                    tot = lambda fl: {c: sum(v for (p_, c2), v in fl.items() if c2 == c) for c in {c for _, c in fl}}
+                    rec.check(tot(after['flows']) == tot(before['flows']), 'accessor', f'{which}/totals/{mech}', f'step {k}: .{which} changed per-chemical totals: {before["flows"]} -> {after["flows"]}')
+                    rec.check(after['T'] == before['T'] and after['P'] == before['P'], 'accessor', f'{which}/TP', f'step {k}: .{which} changed T/P')
+                    after_conversion('accessor', k, st)
+                    eff += 1
+                    continue
                 exp = relabel(before['flows'], labels)
                 rec.check(after['flows'] == exp, 'accessor', f'{which}/content/{mech}', f'step {k}: .{which} from {before["cls"]}{before["phases"]}: content {after["flows"]} expected {exp} (material must stay in its phase)')
                 rec.check(after['T'] == before['T'] and after['P'] == before['P'], 'accessor', f'{which}/TP', f'step {k}: .{which} changed T/P')
